@@ -694,7 +694,7 @@ pub fn run(tier: Tier) -> i32 {
         }
     }
     // large documents: a link whose captured output is 70 KB / 1.1 MB
-    for size in if thorough { vec![70_000usize, 1_100_000] } else { vec![70_000usize] } {
+    for size in if thorough { vec![70_000usize, 1_100_000, 4_300_000] } else { vec![70_000usize, 1_100_000] } {
         let mut l = world::link("s", world::arts(&[("a", 1)]), world::arts(&[("b", 2)]));
         let big: String = (0..size).map(|i| ['a', 'b', '\n', 'c'][i % 4]).collect();
         l.byproducts = l.byproducts.clone().set_stdout(big);
@@ -798,7 +798,7 @@ pub fn run(tier: Tier) -> i32 {
     }
     c.acc.note_n("documents", jobs.len() as u64);
     c.acc.note_n("documents_with_unknown_members", jobs_text.len() as u64);
-    c.rule = format!("documents: all C16 text documents (as MetadataWrapper and as Link/LayoutMetadata), every rule form standalone plus malformed rules, steps, inspections, byproducts, signed blocks, all fixture keys and signatures, C19 predicates and statements (through the wrappers and the typed structs), and node-level mutations of four fixtures (mostly rejected); each in spellings compact / pretty / whitespace-heavy / object members in reverse order / all strings \\u-escaped / one string token escaped at a time (up to {max_tokens} tokens per document) x 15 channels (incl. readers that return short reads and readers that are interrupted before every chunk), plus for MetadataWrapper the channels try_from_bytes / from_bytes / MetablockBuilder::from_raw_metadata; byte inputs that are not text (BOM, invalid UTF-8 in a member name / in the first string value / at the end of the last string, raw control character, trailing NUL, UTF-16, lone surrogate) through 7 byte channels on every 23rd document and on one representative document of each of 10 types; key ids of 8 wrong shapes wherever a key id is read; texts with one member name twice in an object (top level, nested objects, first array element; the other value first / last) on the 13 text and byte channels and the library's own byte channels; 13 documents x insertion points (top level, nested objects, first array element) x 19 values of a member the models do not know (fractions, exponents, integers beyond 64 bits, -0, null, containers), as text, x 15 channels; links with 70 KB (thorough: and 1.1 MB) of captured output; baseline = from_str on the compact spelling. distinct_nontrivial = (type, document) pairs");
+    c.rule = format!("documents: all C16 text documents (as MetadataWrapper and as Link/LayoutMetadata), every rule form standalone plus malformed rules, steps, inspections, byproducts, signed blocks, all fixture keys and signatures, C19 predicates and statements (through the wrappers and the typed structs), and node-level mutations of four fixtures (mostly rejected); each in spellings compact / pretty / whitespace-heavy / object members in reverse order / all strings \\u-escaped / one string token escaped at a time (up to {max_tokens} tokens per document) x 15 channels (incl. readers that return short reads and readers that are interrupted before every chunk), plus for MetadataWrapper the channels try_from_bytes / from_bytes / MetablockBuilder::from_raw_metadata; byte inputs that are not text (BOM, invalid UTF-8 in a member name / in the first string value / at the end of the last string, raw control character, trailing NUL, UTF-16, lone surrogate) through 7 byte channels on every 23rd document and on one representative document of each of 10 types; key ids of 8 wrong shapes wherever a key id is read; texts with one member name twice in an object (top level, nested objects, first array element; the other value first / last) on the 13 text and byte channels and the library's own byte channels; 13 documents x insertion points (top level, nested objects, first array element) x 19 values of a member the models do not know (fractions, exponents, integers beyond 64 bits, -0, null, containers), as text, x 15 channels; links with 70 KB and 1.1 MB (thorough: and 4.3 MB) of captured output; baseline = from_str on the compact spelling. distinct_nontrivial = (type, document) pairs");
     c.bound_completed = "complete within the listed documents".into();
     c.assume("serde_json's own parsing is identical across channels for serde_json::Value (the from_value and Json::deserialize channels go through it)");
     c.finish()
